@@ -356,6 +356,16 @@ def run(world, rep, tier, only=None):
                "flags |= E2IMAGE_CHECK_ZERO_FLAG under access(image_fn, F_OK) != 0: guards %s" %
                [("" if t else "!") + T.pp(a)[:40] for t, a in lits][-3:])
 
+    # ------------------------------------------------------------------ C19.h recycled buffers are cleared over their whole written length
+    # L2 tables, the refcount block and the header buffer are written to the image as whole clusters/blocks and then
+    # reused; a clear that is shorter than the write leaves entries of the previous use in the next cluster written.
+    e2fns = [f for f in prog.functions() if f.file == E2I]
+    agree = buffer_clear_agreement(e2fns, {"generic_write": (1, 2)})
+    rep.floor("C19.h cleared-and-written buffers in e2image.c", len(agree), 3)
+    for i, (f, n, key, sh, acc) in enumerate(agree):
+        rep.ob("C19.h", site(f, "clear of %s covers what is written#%d" % ("/".join(key[-2:]), i)), sh in acc,
+               "memset length %s; the buffer is written/allocated with %s" % (sh, acc))
+
     # ------------------------------------------------------------------ C19.w offset width
     fns = [f for f in prog.functions() if f.file in (E2I, QC, "lib/ext2fs/imager.c")]
     hits, n_and = width.zx_masks(fns)
